@@ -1980,8 +1980,255 @@ fn check_catalogue(g: &mut Gen) {
     }
 }
 
+
+/// The API surface (scan of the source tree, table of c06_api.rs): every listed item is driven
+/// by a case of its own on a non-square, mixed constant/variable configuration with differing
+/// values in the two operands (`x ≠ y`; subtraction / division where a user function is asked
+/// for), each result differentiated.  Returns the routes the run has to reach; an item that is
+/// not in the table becomes the route `UNLISTED:<item>`, which nothing reaches.
+fn gen_api_surface(g: &mut Gen) -> Vec<String> {
+    use super::api::{routes, scan, Driven};
+    let repo = std::env::var("EASYML_REPO").unwrap_or_else(|_| "/repo".to_string());
+    let items = match scan(&repo) {
+        Some(items) => items,
+        None => {
+            g.count("c06.api.source_not_readable");
+            return vec!["UNLISTED:source-not-readable".to_string()];
+        }
+    };
+    let mut need: Vec<String> = vec![];
+    for item in &items {
+        match routes(item) {
+            Some(Driven::Routes(rs)) => {
+                g.count(&format!("c06.api.driven.{}", item));
+                for r in rs {
+                    if !need.contains(&r) {
+                        need.push(r);
+                    }
+                }
+            }
+            Some(Driven::No(_why)) => g.count(&format!("c06.api.undriven.{}", item)),
+            None => {
+                g.count(&format!("c06.api.unlisted.{}", item));
+                need.push(format!("UNLISTED:{}", item));
+            }
+        }
+    }
+    g.count_n("c06.api.items", items.len() as u64);
+    g.count_n("c06.api.routes", need.len() as u64);
+
+    const XS: &str = "3,5,7,2,11,13";
+    const YS: &str = "4,9,6,8,10,12";
+    for kind in ["T", "M"] {
+        let (shape, right, perm_names) = if kind == "T" { ("a:2,b:3", "b:3,c:1", "p.q") } else { ("r:2,c:3", "r:3,c:1", "") };
+        // x and y of one shape (or y the right operand of a multiplication); exactly one of them
+        // a variable, or both; returns the variables' names
+        let head = |g: &mut Gen, pairing: &str, matmul: bool| -> &'static str {
+            g.op("@ tapes 1 fp".into());
+            let (xv, yv) = (pairing != "const_var", pairing != "var_const");
+            let (ys, yvals) = if matmul { (right, "4,9,6") } else { (shape, YS) };
+            g.op(if xv { format!("vars x {} {} {} t=0", kind, shape, XS) } else { format!("consts x {} {} {}", kind, shape, XS) });
+            g.op(if yv { format!("vars y {} {} {} t=0", kind, ys, yvals) } else { format!("consts y {} {} {}", kind, ys, yvals) });
+            match pairing {
+                "var_const" => "x",
+                "const_var" => "y",
+                _ => "x,y",
+            }
+        };
+        let mixed = ["var_const", "const_var"];
+        // operators, every ownership form
+        for op in ["add", "sub", "matmul"] {
+            for form in FORMS4 {
+                for pairing in mixed {
+                    g.count(&format!("c06.api.case.{}.{}.{}", kind, op, form));
+                    let wrt = head(g, pairing, op == "matmul");
+                    g.op(format!("{} z x y via={}", op, form));
+                    g.op(format!("derivs z wrt={} via=all", wrt));
+                }
+            }
+        }
+        for op in ["addn", "subn", "muln", "divn", "subsw", "divsw", "pown", "npow"] {
+            for form in FORMS4 {
+                g.count(&format!("c06.api.case.{}.{}.{}", kind, op, form));
+                let _ = head(g, "var_const", false);
+                g.op(if op == "npow" { format!("npow z 3 x via={}", form) } else { format!("{} z x 7 via={}", op, form) });
+                g.op("sub w z y via=ref_ref".into());
+                g.op("derivs w wrt=x via=for".into());
+            }
+        }
+        for op in ["neg", "sin", "cos", "exp", "ln", "sqrt"] {
+            for form in FORMS2 {
+                g.count(&format!("c06.api.case.{}.{}.{}", kind, op, form));
+                let _ = head(g, "const_var", false);
+                g.op(format!("{} z y via={}", op, form));
+                g.op("ediv w x z".into());
+                g.op("derivs w wrt=y via=all".into());
+            }
+        }
+        // methods taking user functions: subtraction and division
+        for pairing in mixed {
+            for f in ["sub", "div"] {
+                g.count(&format!("c06.api.case.{}.binary", kind));
+                let wrt = head(g, pairing, false);
+                g.op(format!("binary z x y fn={}", f));
+                g.op(format!("derivs z wrt={} via=all", wrt));
+                g.op(format!("derivs z wrt={} via=for", wrt));
+                for (op, via) in [("lassign", "assign"), ("lassign", "do"), ("rassign", "assign"), ("rassign", "do")] {
+                    g.count(&format!("c06.api.case.{}.{}.{}", kind, op, via));
+                    let wrt = head(g, pairing, false);
+                    // the variable operand is kept: its copy is the one overwritten or read
+                    g.op(format!("addn k {} 0 via=ref_ref", wrt));
+                    let (a, b, target) = match (op, wrt) {
+                        ("lassign", "x") => ("k", "y", "k"),
+                        ("lassign", _) => ("x", "k", "x"),
+                        (_, "x") => ("k", "y", "y"),
+                        (_, _) => ("x", "k", "k"),
+                    };
+                    g.op(format!("{} {} {} fn={} via={}", op, a, b, f, via));
+                    g.op(format!("derivs {} wrt={} via=all", target, wrt));
+                }
+            }
+            for op in ["emul", "ediv"] {
+                g.count(&format!("c06.api.case.{}.{}", kind, op));
+                let wrt = head(g, pairing, false);
+                g.op(format!("{} z x y", op));
+                g.op(format!("derivs z wrt={} via=for", wrt));
+            }
+            // one-container methods on the variable operand, combined with the constant one
+            let wrt = if pairing == "var_const" { "x" } else { "y" };
+            let other = if wrt == "x" { "y" } else { "x" };
+            let finish = |g: &mut Gen, z: &str| {
+                g.op(format!("binary w {} {} fn=div", z, other));
+                g.op(format!("derivs w wrt={} via=all", wrt));
+            };
+            g.count(&format!("c06.api.case.{}.unary", kind));
+            let _ = head(g, pairing, false);
+            g.op(format!("unary z {} fn=cube", wrt));
+            finish(g, "z");
+            for via in ["assign", "do"] {
+                g.count(&format!("c06.api.case.{}.uassign.{}", kind, via));
+                let _ = head(g, pairing, false);
+                g.op(format!("addn z {} 0 via=ref_ref", wrt));
+                g.op(format!("uassign z fn=cube via={}", via));
+                finish(g, "z");
+            }
+            for (via, f) in [("map", "aff"), ("with_index", "scale")] {
+                g.count(&format!("c06.api.case.{}.map.{}", kind, via));
+                let _ = head(g, pairing, false);
+                g.op(format!("map z {} fn={} via={}", wrt, f, via));
+                finish(g, "z");
+                g.count(&format!("c06.api.case.{}.mapmut.{}", kind, via));
+                let _ = head(g, pairing, false);
+                g.op(format!("addn z {} 0 via=ref_ref", wrt));
+                g.op(format!("mapmut z fn={} via={}", f, if via == "map" { "map_mut" } else { "with_index" }));
+                finish(g, "z");
+            }
+            // a function making some elements constants: `InconsistentHistory` and its `Display`
+            g.count(&format!("c06.api.case.{}.map.inconsistent", kind));
+            let _ = head(g, pairing, false);
+            g.op(format!("map z {} fn=alt via=with_index", wrt));
+            g.op(format!("addn z {} 0 via=ref_ref", wrt));
+            g.op("mapmut z fn=alt via=with_index".into());
+            for via in ["reset", "do_reset"] {
+                g.count(&format!("c06.api.case.{}.reset.{}", kind, via));
+                let _ = head(g, pairing, false);
+                g.op(format!("binary z x y fn=sub"));
+                g.op("clear t=0".into());
+                g.op(format!("reset {} via={}", wrt, via));
+                g.op(format!("reset {} via={}", other, via));
+                g.op("binary z x y fn=div".into());
+                g.op(format!("derivs z wrt={} via=all", wrt));
+            }
+            // source kinds: `from_existing` over a borrow, `index` / `index_by`, `rename_view`
+            let mut views: Vec<(String, String)> = vec![("/ref".into(), "/ref".into()), ("/rg.0+2.1+2".into(), "/rg.0+2.0+2".into())];
+            if kind == "T" {
+                views.push(("/acc.0.1".into(), "".into()));
+                views.push(("/acc.1.0".into(), "/tr.1.0".into()));
+                views.push((format!("/rn.{}", perm_names), format!("/rn.{}", perm_names)));
+            }
+            for (vx, vy) in views {
+                g.count(&format!("c06.api.case.{}.view{}", kind, vx.split('.').next().unwrap().replace('/', ".")));
+                let wrt = head(g, pairing, false);
+                // one of the two operands has the other source kind
+                if vx.starts_with("/acc.1") {
+                    // `index_by` in another order: the other operand has the transposed shape
+                    // and the opposite constness
+                    let x_var = pairing != "const_var";
+                    g.op(if x_var { "consts y2 T b:3,a:2 4,9,6,8,10,12".to_string() } else { "vars y2 T b:3,a:2 4,9,6,8,10,12 t=0".to_string() });
+                    g.op("sub z x/acc.1.0 y2 via=ref_ref".into());
+                    g.op(format!("derivs z wrt={} via=all", if x_var { "x" } else { "y2" }));
+                    g.op("binary z y2 x/acc.1.0 fn=div".into());
+                    g.op(format!("derivs z wrt={} via=for", if x_var { "x" } else { "y2" }));
+                    continue;
+                } else if vx.starts_with("/rn") {
+                    g.op(format!("ediv z x{} y{}", vx, ""));
+                } else if vx.starts_with("/rg") {
+                    g.op(format!("sub z x{} y via=ref_ref", vx));
+                } else {
+                    g.op(format!("sub z x{} y{} via=ref_ref", vx, vy));
+                }
+                g.op(format!("derivs z wrt={} via=all", wrt));
+            }
+            // iteration as records and back, every constructor of the iterator
+            let mut iters: Vec<(&str, &str)> = vec![("rm", "plain"), ("rm", "ctor"), ("rm", "from"), ("rm", "with_index"), ("rm", "into"), ("rm", "from_with_index")];
+            if kind == "M" {
+                iters.extend([("cm", "plain"), ("cm", "ctor"), ("cm", "from")]);
+            }
+            for (order, via) in iters {
+                g.count(&format!("c06.api.case.{}.fromiter.{}.{}", kind, order, via));
+                let _ = head(g, pairing, false);
+                let to_shape = if order == "cm" { "r:3,c:2" } else { shape };
+                g.op(format!("fromiter z {} to={} shape={} order={} fn=aff via={}", wrt, kind, to_shape, order, via));
+                if order == "cm" {
+                    g.op(format!("derivs z wrt={} via=all", wrt));
+                } else {
+                    finish(g, "z");
+                }
+            }
+            g.count(&format!("c06.api.case.{}.fromiters", kind));
+            let _ = head(g, pairing, false);
+            g.op(format!("fromiters z,z2 {} to={} shape={} fn=aff,sq", wrt, kind, shape));
+            g.op("binary w z z2 fn=div".into());
+            g.op(format!("derivs w wrt={} via=all", wrt));
+            // the three errors of `from_iter` (their `Display`, `Clone`, `Debug`)
+            g.count(&format!("c06.api.case.{}.fromiter.errors", kind));
+            let _ = head(g, pairing, false);
+            g.op(format!("fromiter z {} to={} shape={} chain={}", wrt, kind, if kind == "T" { "a:4,b:3" } else { "r:4,c:3" }, other));
+            g.op(format!("fromiter z {} to={} shape={} take=5", wrt, kind, shape));
+            g.op(format!("fromiter z {} to={} shape={} take=0", wrt, kind, shape));
+            // element access as records, `Record` <-> 0-dimensional tensor
+            let accesses: Vec<&str> = if kind == "T" { vec!["index_by", "owned", "mut"] } else { vec!["matrix"] };
+            for access in accesses {
+                for form in ["get", "try"] {
+                    for conv in ["val", "ref"] {
+                        g.count(&format!("c06.api.case.{}.elem.{}.{}.{}", kind, access, form, conv));
+                        let wrt = head(g, pairing, false);
+                        g.op("binary z x y fn=div".into());
+                        let operand = if access == "index_by" && conv == "ref" { "z/acc.1.0" } else { "z" };
+                        let idx = if operand == "z" { "1,2" } else { "2,1" };
+                        g.op(format!("elem e {} {} via={}.{}.{}", operand, idx, access, form, conv));
+                        g.op(format!("elem none {} {} via={}.try.{}", operand, if operand == "z" { "2,0" } else { "3,0" }, access, conv));
+                        g.op(format!("scalar s e via={}.{}", conv, if form == "get" { "val" } else { "ref" }));
+                        g.op(format!("derivs s wrt={} via=all", wrt));
+                    }
+                }
+            }
+            // the container as a source through the traits
+            g.count(&format!("c06.api.case.{}.traits", kind));
+            let _ = head(g, pairing, false);
+            g.op("binary z x y fn=sub".into());
+            g.op("layout z".into());
+            g.op("swap z 0,1 1,2".into());
+            g.op("layout z".into());
+            g.op(format!("derivs z wrt={} via=for", wrt));
+        }
+    }
+    need
+}
+
 pub fn gen(g: &mut Gen) {
     check_catalogue(g);
+    let api_routes = gen_api_surface(g);
     gen_every_form(g);
     gen_element_access(g);
     gen_large(g);
@@ -2001,4 +2248,7 @@ pub fn gen(g: &mut Gen) {
     for _ in 0..n_rat {
         gen_case(g, true);
     }
+    // which API items (routes of the table) the whole run reached
+    g.op("@ tapes 1 fp".into());
+    g.op(format!("api-report {}", api_routes.join(" ")));
 }
